@@ -136,7 +136,7 @@ func C01(c *core.Ctx) {
 	n := 0
 	for _, ci := range p.Callers(pod) {
 		n++
-		fnm := core.FuncName(ci.Parent())
+		fnm := core.FuncName(core.RootOf(ci.Parent())) // a private helper counts as its caller
 		ok := fnm == "fw/fw.StrategyBase.SendData" || fnm == "fw/fw.Thread.processIncomingData"
 		c.Decide(ok, "R1.1", "processOutgoingData-caller:"+fnm, c.Pos(ci), "allowed caller", "processOutgoingData called from "+fnm+": Data can be emitted outside the PIT-driven paths")
 	}
